@@ -89,7 +89,7 @@ func (c01) Gen(r *Rng, tier string, emit func(string, Tok)) {
 		sts := []astits.StreamType{astits.StreamTypeH264Video, astits.StreamTypeAACAudio, astits.StreamTypePrivateData}
 		for j := 0; j < nstreams; j++ {
 			ops = append(ops, muxOp{kind: opAdd, es: &astits.PMTElementaryStream{ElementaryPID: uint16(0x110 + j), StreamType: sts[r.Intn(len(sts))],
-				ElementaryStreamDescriptors: c14GenLoop(r, 7, 900/nstreams)}})
+				ElementaryStreamDescriptors: c14GenLoop(r, 7, 150/nstreams-5)}}) // the PMT must fit one packet
 		}
 		ops = append(ops, muxOp{kind: opSetPCR, pid: 0x110})
 		for j := 0; j < r.Range(2, 4); j++ {
